@@ -123,7 +123,7 @@ class Spec:
     def __init__(self, *, n, d, field, C, lin, fact, damp=0.0, base=None, calib="none",
                  mle_correction=True, cinit=False, mp=False, drift=None):
         self.n, self.d, self.field, self.lin, self.fact = n, d, field, lin, fact
-        self.order = field.order
+        self.order = getattr(field, "ode_order", field.order)
         self.N = Num(mp)
         self.C = self.N.arr(C)
         self.damp = self.N.num(damp)
@@ -138,6 +138,27 @@ class Spec:
     # documented linearisation of the ODE constraint  u^(k) - f(u, .., t) = 0  at mean m
     def linearise(self, m, t):
         N, n, d, k = self.N, self.n, self.d, self.order
+        if self.lin == "implicit":
+            # r(U) = U_k + P(U_0..U_k, t); first-order Taylor expansion at the mean, reduced to the
+            # factorisation's structure blockwise (dense: full, blockdiag: diagonal, isotropic: trace/d)
+            jet = [m[i * d : (i + 1) * d] for i in range(k + 1)]
+            px = self.field.np_eval(self.C, jet, N.num(t))
+            J = self.field.np_jac(self.C, jet, N.num(t))  # (d, k+1, d)
+            Hr = N.zeros(d, n * d)
+            for a in range(d):
+                Hr[a, k * d + a] = Hr[a, k * d + a] + 1
+            for i in range(k + 1):
+                if self.fact == "dense":
+                    Hr[:, i * d : (i + 1) * d] = Hr[:, i * d : (i + 1) * d] + J[:, i, :]
+                elif self.fact == "blockdiag":
+                    for a in range(d):
+                        Hr[a, i * d + a] = Hr[a, i * d + a] + J[a, i, a]
+                else:
+                    tr = sum(J[a, i, a] for a in range(d)) / d
+                    for a in range(d):
+                        Hr[a, i * d + a] = Hr[a, i * d + a] + tr
+            r = m[k * d : (k + 1) * d] + px
+            return Hr, r - Hr @ m
         jet = [m[i * d : (i + 1) * d] for i in range(k)]
         fx = self.field.np_eval(self.C, jet, N.num(t))
         H = N.zeros(d, n * d)
